@@ -13,7 +13,7 @@ import itertools
 import z3
 
 from .vals import *
-from .types import *
+from .tys import *
 from .strops import *
 from . import rx as rxmod
 from .contract import REGISTRY
